@@ -147,3 +147,27 @@ EXTRA4 = {
 for _pid, _x in EXTRA4.items():
     if _pid in CLAIMED:
         CLAIMED[_pid]["text"] += _x
+
+# ---- additions after seeded round 5 ----
+EXTRA5 = {
+ "C01": " Round 5: the in-process engine's reads leave the records alone (C11-R3) and conditions are read inside the batch's transaction (C11-R1), both imported into R6.",
+ "C02": " Round 5: a failed oracle read fails the lock operation (C15-R5 imported into R6).",
+ "C03": " Round 5: every reader is configured with the deletion marker (each store into a marker field is the marker, each literal of the owning struct sets it, R2); compaction's failed-delete and ordering discipline (C07-R3/R4) imported into R1; adapter iterators hand engine errors on (C11-R11 via C13-R8).",
+ "C04": " Round 5: what a summarised allocator returns in its revision position is an allocated revision or 0 (R1 converse).",
+ "C06": " Round 5: a key vanishes from reads only with a DELETE event: C07-R3/R4 and C17-R1/R2 imported as R6.",
+ "C07": " Round 5: adapters report a failed delete / commit as failed (C11-R11 into R6); the expiry bound is the revision of a compaction mark whose age was tested (C17-R2 into R8).",
+ "C09": " Round 5: engine read errors in pkg/backend are never answered as 'key not found' (R8).",
+ "C10": " Round 5: constant revisions in internal keys are 0 or the maximal uint64 (R6); records are attributed by decoded user key (C07-R3 into R5).",
+ "C11": " Round 5: adapter error preservation for every engine call of badger / tikv (R11, one named exception), no store-level call inside a staged operation (R1), the in-process engine's read path removes only its own seek marker (R3).",
+ "C13": " Round 5: the header of a streamed batch is the stream's revision, traced to the RangeStream parameter (R4); adapter iterator errors (C11-R11 into R8).",
+ "C14": " Round 5: conditions of the lock's writes are evaluated inside the batch's engine transaction (C11-R1 via R5).",
+ "C15": " Round 5: every success return of the helper that parses Describe() returns a parsed version (R1).",
+ "C16": " Round 5: limited and unlimited range agree on deleted keys: every worker configuration carries the deletion marker (C03-R2 into R6).",
+ "C17": " Round 5: the timeout revision belongs to a compaction mark whose own age was tested (R2); all of C07-R4 imported into R6.",
+ "C18": " Round 5: the revision is sampled under established leadership, and the fetched revision never passes through a floating-point value (R5).",
+ "C19": " Round 5: no append onto a slice of a shared object unless the result is stored back (R7); function literals handed to asynchronous library functions (time.AfterFunc) are analysed with no lock held.",
+ "C20": " Round 5: the accepted abort's invariant is checked (every StreamRangeResponse literal sets RangeResponse and Header, R2); batches begun and not committed wedge the in-process engine (C11-R2 into R7).",
+}
+for _pid, _x in EXTRA5.items():
+    if _pid in CLAIMED:
+        CLAIMED[_pid]["text"] += _x
